@@ -156,6 +156,9 @@ class Theory:
     def after_list_concat(self, interp, res, a, b):
         pass
 
+    def after_seq_map(self, interp, res, src):
+        pass
+
     def str_method(self, interp, s, name):
         return None
 
